@@ -656,6 +656,180 @@ def rule_zero_prune(rep, F):
         rep.violation("ZERO-prune", "MultiAsset::sub|%s" % b[:60], "MultiAsset::sub: %s - a zero quantity / empty policy bundle can reach a builder-made change output" % b, {})
 
 
+def rule_pos_field(rep, F, cddl):
+    """a field whose CDDL type is positive never receives Some(0) from API code: every store is None, a copy of another such field
+    (which then falls under the rule), or Some(v) on the non-zero edge of a zero test of v; decoders keep what the wire held"""
+    import fieldflow as ff
+    import mustpass as mp
+    rep.rule("POS-field", "positive_coin fields (treasury donation, key 22): every store outside the decoders is None, a copy of a field under the same rule, or Some(v) dominated by the non-zero edge of a zero test: `22: 0` is never emitted for a value built through the typed API or the builder")
+    work = [(a, f) for a, f, _ in cddl["positive_fields"]]
+    for a, f in work:
+        if a not in F.adts or ff.field_index(F, a, f) is None:
+            rep.lost("positive field %s.%s not found" % (a, f))
+            return
+    seen = set()
+    n_sites = 0
+    while work:
+        adt, fld = work.pop()
+        if (adt, fld) in seen:
+            continue
+        seen.add((adt, fld))
+        idx = ff.field_index(F, adt, fld)
+        for fid, fn in F.fns.items():
+            if "/tests/" in fn["file"] or F.is_derived(fid):
+                continue
+            if "Deserialize" in (fn.get("impl_trait") or "") or "/serialization/" in fn["file"]:
+                continue   # a decoder keeps what the wire held (the round trip is C01's subject)
+            ffs = ff.FnFields(F, fid)
+            sites = [(s[2], s[4] if not (isinstance(s[4], tuple)) else None, "store") for s in ffs.stores_to(adt, fld)]
+            for (a2, var, bi, si, dest, ops) in ffs.aggregates_of(adt):
+                if idx < len(ops):
+                    sites.append((bi, ["use", ops[idx]], "literal"))
+            if not sites:
+                continue
+            org = ff.Origins(F, fid)
+            def classify(bi, rv, depth=0):
+                """'ok' | ('copy', [(adt, field)]) | 'bad' | 'call' for the value rv stored / defined in block bi"""
+                if rv is None:
+                    return ["call"]
+                if rv[0] == "agg" and rv[3] == "None":
+                    return ["ok"]
+                if rv[0] == "use" and rv[1][0] == "k":
+                    return ["ok"]   # a constant (None)
+                if rv[0] == "use" and rv[1][0] in ("c", "m") and "|" not in rv[1][1] and depth < 6:
+                    ds = [d for d in org.defs.get(rv[1][1], []) if d[2] == rv[1][1]]
+                    if ds and all(d[0] == "st" for d in ds):
+                        out = []
+                        for d in ds:
+                            out += classify(d[1], d[3], depth + 1)   # each definition judged in its own block
+                        return out
+                o = set()
+                if rv[0] == "use":
+                    o = org.of_operand(rv[1])
+                elif rv[0] == "agg":
+                    for x in rv[4]:
+                        o |= org.of_operand(x)
+                opt_copies = []
+                for x in o:
+                    if not x.startswith("field:") or x.endswith("%s.%s" % (adt, fld)):
+                        continue
+                    a3, f3 = x[len("field:"):].rsplit(".", 1)
+                    if a3 in F.adts and ff.field_index(F, a3, f3) is not None:
+                        ty = [ff_["ty"] for v in F.adts[a3]["variants"] for ff_ in v["fields"] if ff_["name"] == f3]
+                        if ty and "Option<" in ty[0] and ("BigNum" in ty[0] or "Coin" in ty[0]):
+                            opt_copies.append((a3, f3))
+                if opt_copies and not (rv[0] == "agg" and rv[3] == "Some"):
+                    return [("copy", opt_copies)]
+                for s_bb, edge, cond in mp.dominating_guards(F, fid, bi, org):
+                    if cond["kind"] == "call" and cond["callee"].endswith("is_zero"):
+                        if (edge == "0") != cond["neg"]:
+                            return ["ok"]
+                    if cond["kind"] == "bin" and cond["op"] in ("Ne", "Gt", "Lt", "Eq") and ("const" in cond["lhs"] or "const" in cond["rhs"]):
+                        true_edge = (edge != "0") != cond["neg"]
+                        if (cond["op"] in ("Ne", "Gt", "Lt") and true_edge) or (cond["op"] == "Eq" and not true_edge):
+                            return ["ok"]
+                return ["bad"]
+
+            for bi, rv, how in sites:
+                n_sites += 1
+                rep.inst("POS-field")
+                key = "%s|%s.%s" % (F.key(fid), adt.rsplit("::", 1)[-1], fld)
+                res = classify(bi, rv)
+                for r in res:
+                    if isinstance(r, tuple):
+                        work.extend(r[1])
+                if "call" in res:
+                    rep.violation("POS-field", key + "|call-result", "%s stores a call result into the positive field %s.%s: not decidable as non-zero" % (F.key(fid), adt, fld), {})
+                elif "bad" in res:
+                    rep.violation("POS-field", key, "%s stores a value into %s.%s (%s) without a zero test: %s accepts 0 and the body is then written with `16 00` (key 22, value 0), which the CDDL's positive_coin excludes and the ledger's decoder rejects" % (F.key(fid), adt.rsplit("::", 1)[-1], fld, how, F.key(fid)), {})
+    rep.floor("stores into positive fields and their sources", 4, n_sites)
+
+
+def rule_size_field(rep, F, cddl):
+    """raw byte-string fields with a CDDL-fixed size: every store outside the decoders is dominated by a length test against that size"""
+    import fieldflow as ff
+    import mustpass as mp
+    rep.rule("SIZE-field", "a raw byte-string field whose CDDL type fixes its size (bootstrap witness chain_code: bytes .size 32) is filled, outside the decoders, only on the passing edge of a length comparison with that size")
+    n_sites = 0
+    for adt, fld, size, spec in cddl["size_fields"]:
+        idx = ff.field_index(F, adt, fld) if adt in F.adts else None
+        if idx is None:
+            rep.lost("sized field %s.%s not found" % (adt, fld))
+            continue
+        for fid, fn in F.fns.items():
+            if "/tests/" in fn["file"] or F.is_derived(fid):
+                continue
+            if "Deserialize" in (fn.get("impl_trait") or "") or "/serialization/" in fn["file"]:
+                continue
+            ffs = ff.FnFields(F, fid)
+            sites = [s[2] for s in ffs.stores_to(adt, fld)] + [a[2] for a in ffs.aggregates_of(adt)]
+            if not sites:
+                continue
+            org = ff.Origins(F, fid)
+            for bi in sites:
+                n_sites += 1
+                rep.inst("SIZE-field")
+                ok = False
+                for s_bb, edge, cond in mp.dominating_guards(F, fid, bi, org):
+                    if cond["kind"] == "bin" and cond["op"] in ("Eq", "Ne"):
+                        side = cond["lhs"] + cond["rhs"]
+                        fn_ = F.fns[fid]
+                        consts = []
+                        for st in fn_["bbs"][cond["bb"]]["st"]:
+                            if st[1] == "=" and st[3][0] == "bin":
+                                for o in (st[3][2], st[3][3]):
+                                    if o[0] == "k" and str(o[1]).split("_")[0].isdigit():
+                                        consts.append(int(str(o[1]).split("_")[0]))
+                        if any("len" in x for x in side) and size in consts:
+                            true_edge = (edge != "0") != cond["neg"]
+                            if (cond["op"] == "Eq" and true_edge) or (cond["op"] == "Ne" and not true_edge):
+                                ok = True
+                if not ok:
+                    rep.violation("SIZE-field", "%s.%s|%s" % (adt.rsplit("::", 1)[-1], fld, F.key(fid)), "%s fills %s.%s without a length test; the CDDL says `%s`: %s::new(vkey, sig, vec![0; 3], attrs).to_bytes() carries a 3-byte chain code" % (F.key(fid), adt.rsplit("::", 1)[-1], fld, spec, adt.rsplit("::", 1)[-1]), {})
+    rep.floor("stores into size-fixed raw byte fields", 1, n_sites)
+
+
+TYPE_MAX = {"u8": 255, "u16": 65535, "u32": (1 << 32) - 1, "u64": (1 << 64) - 1, "usize": (1 << 64) - 1, "BigNum": (1 << 64) - 1}
+
+
+def rule_int_width(rep, F, cddl):
+    """integer fields whose CDDL range is narrower than 64 bits: the Rust field type cannot hold more, or every store is gated"""
+    import fieldflow as ff
+    import mustpass as mp
+    rep.rule("INT-width", "an integer field whose CDDL range is narrower than u64 has a Rust type that cannot exceed it, or is filled (outside the decoders) only on the passing edge of a comparison with the bound: the writer cannot emit an out-of-range integer for a value built through the typed API")
+    for adt, fld, vmax, spec in cddl["int_fields"]:
+        if adt not in F.adts or ff.field_index(F, adt, fld) is None:
+            rep.lost("integer field %s.%s not found" % (adt, fld))
+            continue
+        rep.inst("INT-width")
+        ty = [f["ty"] for f in F.adts[adt]["variants"][0]["fields"] if f["name"] == fld][0]
+        base = re.sub(r"^std::option::Option<(.*)>$", r"\1", ty).rsplit("::", 1)[-1]
+        if base not in TYPE_MAX:
+            rep.lost("integer field %s.%s has type %s, not understood" % (adt, fld, ty))
+            continue
+        if TYPE_MAX[base] <= vmax:
+            continue
+        # the type is wider than the CDDL range: look for gated stores
+        ungated = []
+        for fid, fn in F.fns.items():
+            if "/tests/" in fn["file"] or F.is_derived(fid) or "Deserialize" in (fn.get("impl_trait") or "") or "/serialization/" in fn["file"]:
+                continue
+            ffs = ff.FnFields(F, fid)
+            sites = [s[2] for s in ffs.stores_to(adt, fld)] + [a[2] for a in ffs.aggregates_of(adt)]
+            if not sites:
+                continue
+            org = ff.Origins(F, fid)
+            for bi in sites:
+                ok = False
+                for s_bb, edge, cond in mp.dominating_guards(F, fid, bi, org):
+                    if cond["kind"] == "bin" and cond["op"] in ("Le", "Lt", "Gt", "Ge") and ("const" in cond["lhs"] or "const" in cond["rhs"]):
+                        ok = True
+                if not ok:
+                    ungated.append(F.key(fid))
+        if ungated:
+            rep.violation("INT-width", "%s.%s" % (adt.rsplit("::", 1)[-1], fld), "%s.%s has type %s (up to %d) but the CDDL says `%s` (up to %d), and %s fill it without a range test: %d is accepted and written as it is" % (adt.rsplit("::", 1)[-1], fld, base, TYPE_MAX[base], spec, vmax, ", ".join(sorted(set(ungated))[:3]), vmax + 1), {})
+
+
 def check(rep, F, tier, replay=None):
     cddl = common.load_table("conway_cddl.json")
     aud = common.load_table("e2_audited.json")
@@ -671,4 +845,7 @@ def check(rep, F, tier, replay=None):
     rule_bound(rep, F, cddl, aud)
     bodyorigins.check(rep, F)
     rule_zero_prune(rep, F)
+    rule_pos_field(rep, F, cddl)
+    rule_size_field(rep, F, cddl)
+    rule_int_width(rep, F, cddl)
     return rep.finish(EXPLANATION, ASSUMPTIONS, trusted_base=["csl-facts driver (HIR/MIR dump of the type-checked crate)", "tables/conway_cddl.json (CDDL transcription)", "tables/e2_audited.json", "tables/body_origins.json", "cbor_event head encoding"])
